@@ -235,6 +235,46 @@ func run(r *vk.Runner) {
 					}
 					t.Class("accepted-equal")
 				})
+				// fault: a second member of a oneof the query already addresses
+				for si, site := range querySites {
+					for _, g := range site.arms {
+						if g.JSON == site.chosen {
+							continue
+						}
+						key, val := site.prefix+g.JSON, ""
+						switch {
+						case g.Kind == gpb.KString:
+							val = "x"
+						case g.Kind == gpb.KBool:
+							val = "true"
+						case g.Kind == gpb.KInt64 || g.Kind == gpb.KInt32:
+							val = "1"
+						case g.Kind == gpb.KObject && g.Msg != nil && len(g.Msg.Fields) > 0 && (g.Msg.Fields[0].Kind == gpb.KString || g.Msg.Fields[0].Kind == gpb.KBool) && g.Msg.Fields[0].Label == gpb.Single:
+							key += "." + g.Msg.Fields[0].JSON
+							val = map[bool]string{true: "x", false: "true"}[g.Msg.Fields[0].Kind == gpb.KString]
+						default:
+							continue
+						}
+						q2 := url.Values{}
+						for k, v := range q {
+							q2[k] = v
+						}
+						q2[key] = []string{val}
+						r.Do(fmt.Sprintf("%s:query-second-arm:%d:%s", base, si, g.JSON), func(t *vk.T) {
+							t.Coord("reject|query|kind=" + kind)
+							t.Nontrivial()
+							back := dynamicpb.NewMessage(orig.Descriptor())
+							err := codec.QueryToProto(q2, back)
+							t.Step()
+							if err == nil {
+								btxt := prototext.MarshalOptions{}.Format(back)
+								t.Violation("fault-accepted|query-second-oneof-member|kind="+kind, fmt.Sprintf("query parameters that address two members of one oneof are accepted\nschema %s\nquery: %v\ndecoded as: %s", c.ID, q2, btxt), q2, "error", btxt)
+								return
+							}
+							t.Class("rejected")
+						})
+					}
+				}
 			}
 
 			// ---- rejecting direction: one fault at every node ----
@@ -325,8 +365,19 @@ func otherArm(n *gpb.Spec, have string) (string, string) {
 
 // toQuery renders the scalar members of a document as url.Values (dotted
 // paths into nested objects). Documents holding anything else are skipped.
+// oneofSite: a oneof the query addresses: the key prefix up to and including the oneof's name,
+// the member the query selects, and all members of that oneof.
+type oneofSite struct {
+	prefix string
+	chosen string
+	arms   []*gpb.Field
+}
+
+var querySites []oneofSite // sites of the last toQuery call
+
 func toQuery(sp *gpb.Spec) (url.Values, bool) {
 	q := url.Values{}
+	querySites = nil
 	var rec func(s *gpb.Spec, prefix string) bool
 	leaf := func(v *gpb.Val) (string, bool) {
 		switch v.Kind {
@@ -386,6 +437,37 @@ func toQuery(sp *gpb.Spec) (url.Values, bool) {
 					return false // an empty nested object cannot be expressed as scalar parameters
 				}
 				if !rec(m.V, prefix+m.K+".") {
+					return false
+				}
+			case gpb.SOneof:
+				// a oneof is addressed through its one member: w.arm=value or w.arm.member=value
+				if len(m.V.Mem) != 1 {
+					return false
+				}
+				arm := m.V.Mem[0]
+				site := oneofSite{prefix: prefix + m.K + ".", chosen: arm.K}
+				if m.V.M != nil {
+					site.arms = m.V.M.Fields
+				} else if m.V.F != nil && s.M != nil {
+					for _, g := range s.M.Fields {
+						if g.Group == m.V.F.Group {
+							site.arms = append(site.arms, g)
+						}
+					}
+				}
+				querySites = append(querySites, site)
+				switch arm.V.T {
+				case gpb.SLeaf:
+					str, ok := leaf(arm.V.Leaf)
+					if !ok {
+						return false
+					}
+					q[prefix+m.K+"."+arm.K] = []string{str}
+				case gpb.SObj:
+					if len(arm.V.Mem) == 0 || !rec(arm.V, prefix+m.K+"."+arm.K+".") {
+						return false
+					}
+				default:
 					return false
 				}
 			default:
